@@ -43,6 +43,14 @@ impl Arguments {
         });
     }
 
+    pub fn push_named_by_ref(&mut self, parameter_name: Parameter, arg: Variant, path: Path) {
+        self.v.push(ArgumentInfo {
+            value: arg,
+            param_name: Some(parameter_name),
+            arg_path: Some(path),
+        });
+    }
+
     pub fn iter(&self) -> Iter<'_, ArgumentInfo> {
         self.v.iter()
     }
